@@ -385,6 +385,36 @@ def check_raw_returns(ctx, qf, body, text_param):
 
 
 
+def check_returns_built_from_map(ctx, qf, body, text_param):
+    """T12.final: what a quote function returns is the text as built from its quote map -- `''.join(...)` over the mapped pieces
+    (or the raw text under T26.raw, or the result of the shared helper it delegates to).  A return that post-processes the quoted
+    text (`re.sub`, `.replace`, slicing, concatenation) can undo an escape the map produced."""
+    single = {}
+    for n in ast.walk(body.node):
+        if isinstance(n, ast.Assign) and len(n.targets) == 1 and isinstance(n.targets[0], ast.Name):
+            single.setdefault(n.targets[0].id, []).append(n.value)
+
+    def built(e, depth=0):
+        if isinstance(e, ast.Name):
+            if e.id == text_param:
+                return True                 # judged by T26.raw
+            vs = single.get(e.id, [])
+            return bool(vs) and depth < 4 and all(built(v, depth + 1) for v in vs)
+        if isinstance(e, ast.IfExp):
+            return built(e.body, depth) and built(e.orelse, depth)
+        if isinstance(e, ast.Call):
+            if isinstance(e.func, ast.Attribute) and e.func.attr == 'join' and isinstance(e.func.value, ast.Constant):
+                return True
+            if isinstance(e.func, ast.Name) and (e.func.id in body.module.functions or e.func.id in ('str', 'to_unicode')):
+                return True                 # delegation to a module function (checked where it is a quote helper)
+        return False
+    for r in ast.walk(body.node):
+        if isinstance(r, ast.Return) and r.value is not None:
+            ok = built(r.value)
+            ctx.ob('T12.final', qf.fq, 'the quoted text is returned as built from the quote map (no post-processing that could undo an '
+                   'escape)', ok, loc='%s:%d' % (body.module.relpath, r.lineno), detail=txt(r.value)[:100])
+
+
 def check_quote_shape(ctx, qf, names):
     """full mode: per *byte* of the NFC-normalised UTF-8 encoding, through the map;
     minimal mode: only characters in DELIMS go through the map. The body may live in a
@@ -422,6 +452,8 @@ def check_quote_shape(ctx, qf, names):
                 _minimal_polarity(ctx, qf, callee, inv.get(names['delims'], '?'), inv.get(names['map'], '?'), via)
                 check_raw_returns(ctx, qf, callee, inv.get('text', 'text'))
                 check_raw_returns(ctx, qf, qf, 'text')
+                check_returns_built_from_map(ctx, qf, callee, inv.get('text', 'text'))
+                check_returns_built_from_map(ctx, qf, qf, 'text')
                 return
     has_full = any(isinstance(n, (ast.If, ast.IfExp)) and txt(n.test) == 'full_quote' for n in ast.walk(qf.node))
     enc = [n for n in ast.walk(qf.node) if isinstance(n, ast.Call) and isinstance(n.func, ast.Attribute)
@@ -433,6 +465,7 @@ def check_quote_shape(ctx, qf, names):
            '(branch on full_quote present, utf-8 encode present)', has_full and bool(enc), loc=qf.loc)
     _minimal_polarity(ctx, qf, qf, names['delims'], names['map'])
     check_raw_returns(ctx, qf, qf, qf.params[0] if qf.params else 'text')
+    check_returns_built_from_map(ctx, qf, qf, qf.params[0] if qf.params else 'text')
 
 
 def check_make_quote_map(ctx, fn):
@@ -572,11 +605,18 @@ def check_unquote_to_bytes(ctx, fn):
             seg = [o for o in ops if a < o.seq < b]
             emitted = []
             for o in seg:
+                def _pieces(e):
+                    # a + b appended at once is a, then b
+                    e = w.expand(e)
+                    if isinstance(e, ast.BinOp) and isinstance(e.op, ast.Add):
+                        return _pieces(e.left) + _pieces(e.right)
+                    return [txt(e)]
                 if o.kind == 'call' and isinstance(o.val.func, ast.Attribute) and o.val.func.attr == 'append' and o.val.args:
-                    emitted.append(txt(w.expand(o.val.args[0])))
+                    emitted.extend(_pieces(o.val.args[0]))
                 elif o.kind == 'call' and isinstance(o.val.func, ast.Attribute) and o.val.func.attr == 'extend' and o.val.args \
-                        and isinstance(o.val.args[0], ast.Tuple):
-                    emitted.extend(txt(w.expand(x)) for x in o.val.args[0].elts)
+                        and isinstance(o.val.args[0], (ast.Tuple, ast.List)):
+                    for x in o.val.args[0].elts:
+                        emitted.extend(_pieces(x))
             if not emitted:
                 continue
             looked = [o for o in seg if (o.kind == 'sub_load' and txt(o.val.value) == '_HEX_CHAR_MAP') or
